@@ -89,19 +89,35 @@ Definition out_sc (o : option (Q * Q)) : (Z * Z) * (Z * Z) :=
 
 
 # ------------------------------------------------------------------ generators
-def gen_grid(rng, big=False):
+def gen_grid(rng, big=False, large=False):
+    """Stretched grid.  large=True: projected/UTM-like absolute coordinates
+    (origin x ~1e5..8e5, y ~1e6..8e6, multiples of 1/4, still exact floats and
+    unaffected by the 9-decimal rounding); cells of a few metres."""
     shape = [rng.randint(2, 5 if big else 4) for _ in range(3)]
-    if rng.random() < 0.2:
+    if rng.random() < 0.2 and not large:
         shape[rng.randrange(3)] = 1 if rng.random() < 0.3 else 2
     hs = [[rng.randint(1, 12) / 4 for _ in range(n)] for n in shape]
     org = [rng.randint(-16, 16) / 4 for _ in range(3)]
+    if large:
+        org[0] = rng.randint(100000, 800000) + rng.randint(0, 3) / 4
+        org[1] = rng.randint(1000000, 8000000) + rng.randint(0, 3) / 4
+        if rng.random() < 0.3:
+            org[2] = -rng.randint(1000, 4000) + rng.randint(0, 3) / 4
     nodes = []
     for o, h in zip(org, hs):
         nd = [o]
         for w in h:
             nd.append(nd[-1] + w)
         nodes.append(nd)
-    return {'h': hs, 'origin': org, 'nodes': nodes, 'shape': shape}
+    return {'h': hs, 'origin': org, 'nodes': nodes, 'shape': shape, 'large': large}
+
+
+def val_scale(pts):
+    """Scale for comparing vector entries: segment extents plus the rounding
+    of coordinates of this magnitude (1e-9*scale ~ 1e-9*extent + 1e-14*|coord|)."""
+    dmax = max([abs(b - a) for p, q in zip(pts[:-1], pts[1:]) for a, b in zip(p, q)] + [1.0])
+    cmax = max(abs(x) for p in pts for x in p)
+    return dmax + 1e-5 * cmax
 
 
 def mesh(g):
@@ -173,6 +189,20 @@ def gen_points(rng, g, kind, allow_upper=True):
                 keep = rng.randrange(3)
                 p = [p[d] if d == keep else pts[-1][d] for d in range(3)]
             pts.append(p)
+    elif kind == 'cable':
+        # roughly horizontal cable digitised in short pieces: constant z,
+        # 3..8 electrodes, steps of at most 2 m in x and y
+        n = rng.randint(3, 8)
+        z = coord(rng, nd[2], rng.choice(['generic', 'node', 'first']))
+        p = point(rng, g, pick_modes(0.3, 0.1))
+        p[2] = z
+        pts = [p]
+        for _ in range(n - 1):
+            q = list(pts[-1])
+            for d in (0, 1):
+                if rng.random() < 0.7:
+                    q[d] = min(nd[d][-1], max(nd[d][0], q[d] + rng.randint(-32, 32) / 16))
+            pts.append(q)
     elif kind == 'outside':
         pts = [point(rng, g, ['generic'] * 3) for _ in range(rng.choice([2, 2, 3, 4]))]
         d = rng.randrange(3)
@@ -204,6 +234,8 @@ def gen_points(rng, g, kind, allow_upper=True):
 
 DIP_KINDS = (['generic'] * 8 + ['nodes'] * 3 + ['boundary'] * 2 + ['axis'] * 2 + ['onecell'] * 1
              + ['wire'] * 3 + ['outside'] * 1 + ['nolength'] * 1)        # 21: 8 generic = 38 %
+# every fourth dipole/wire case lives in large absolute (projected/UTM-like) coordinates
+LARGE_KINDS = ['wire', 'cable', 'cable', 'wire', 'generic', 'axis', 'nodes', 'nolength']
 
 
 def upper_plane(g, pts):
@@ -297,8 +329,13 @@ def corr_dipole(ctx, n, dis, hist, samples, clamp):
     rng = ctx.rng
     cases = []
     for i in range(n):
-        kind = DIP_KINDS[i % len(DIP_KINDS)] if i < 2 * len(DIP_KINDS) else rng.choice(DIP_KINDS)
-        g = gen_grid(rng, ctx.thorough)
+        large = (i % 4 == 3)
+        if large:
+            kind = LARGE_KINDS[(i // 4) % len(LARGE_KINDS)] if i < 8 * len(LARGE_KINDS) \
+                else rng.choice(LARGE_KINDS)
+        else:
+            kind = DIP_KINDS[i % len(DIP_KINDS)] if i < 2 * len(DIP_KINDS) else rng.choice(DIP_KINDS)
+        g = gen_grid(rng, ctx.thorough, large)
         pts = gen_points(rng, g, kind)
         allv = [x for p in pts for x in p] + [x for nd in g['nodes'] for x in nd]
         assert all(float(np.round(x, 9)) == x for x in allv), "input affected by the 9-decimal rounding"
@@ -319,7 +356,8 @@ def corr_dipole(ctx, n, dis, hist, samples, clamp):
             head = ints(ans[4 * j])
             impl = run_dipole_impl(c['grid'], c['pts'])
             brief = {'kind': c['kind'], 'h': c['grid']['h'], 'origin': c['grid']['origin'], 'points': c['pts']}
-            hist[c['kind']] = hist.get(c['kind'], 0) + 1
+            hk = ('large/' if c['grid'].get('large') else '') + c['kind']
+            hist[hk] = hist.get(hk, 0) + 1
             hist[f"electrodes={len(c['pts'])}"] = hist.get(f"electrodes={len(c['pts'])}", 0) + 1
             if len(samples) < 4 and k % 5 == 0:
                 samples.append(brief)
@@ -340,7 +378,7 @@ def corr_dipole(ctx, n, dis, hist, samples, clamp):
                 continue
             if mwarn:
                 hist['normalisation_fired'] = hist.get('normalisation_fired', 0) + 1
-            scale = max(abs(x) for p in c['pts'] for x in p) + 1
+            scale = val_scale(c['pts'])
             for comp in range(3):
                 nan_model = any(stats[3 * s + comp] == 2 for s in range(len(stats) // 3))
                 iv = impl['f'][comp]
@@ -359,7 +397,8 @@ def corr_dipole(ctx, n, dis, hist, samples, clamp):
                               for a, b_ in zip(c['pts'][:-1], c['pts'][1:]))
             on_nodes = sum(1 for p in c['pts'] for d in range(3) if p[d] in c['grid']['nodes'][d])
             if on_nodes or any(zero_dirs) or len(c['pts']) > 2:
-                nontriv.add((c['kind'], tuple(c['grid']['shape']), zero_dirs, on_nodes))
+                nontriv.add((c['kind'], bool(c['grid'].get('large')), tuple(c['grid']['shape']), zero_dirs,
+                             on_nodes))
     return len(cases), len(nontriv)
 
 
@@ -499,6 +538,9 @@ def run_gsf_impl(g, src, freq):
         try:
             if src['type'] == 'point':
                 s = emg3d.TxElectricPoint(tuple(src['coo']), strength=src['strength'])
+            elif src['type'] == 'mag':
+                s = emg3d.TxMagneticDipole(tuple(src['coo']), strength=src['strength'],
+                                           length=src['area'])
             elif src['type'] == 'wire':
                 s = emg3d.TxElectricWire(np.array(src['pts'], float), strength=src['strength'])
             elif src['type'] == 'flat':
@@ -533,26 +575,51 @@ def coq_gsf_case(k, g, src, freq, clamp):
             L.append(f"Eval vm_compute in match R{k} with None => [] | Some t => "
                      f"dump3 {scale} {s[0]} {s[1]} {s[2]} ({sel}) end.")
     else:
+        pts = src['loop'] if src['type'] == 'mag' else src['pts']
         L.append(f"Definition R{k} := dipole_vector Qle_bool {V.coq_bool(clamp)} G{k} "
-                 f"[{'; '.join(coq_p3(p) for p in src['pts'])}].")
+                 f"[{'; '.join(coq_p3(p) for p in pts)}].")
         for c in range(3):
             s = fshape(g['shape'], c)
             L.append(f"Eval vm_compute in res_dump {scale} R{k} {c} {s[0]} {s[1]} {s[2]}.")
     return '\n'.join(L)
 
 
+def gen_mag(rng, g):
+    """Magnetic dipole (x, y, z, az, el) + area whose square loop stays inside
+    the grid; returns (coo, area, loop points as the code rounds them)."""
+    from emg3d import electrodes as E
+    nd = g['nodes']
+    ext = min(n[-1] - n[0] for n in nd)
+    hd = min(1.0, ext / 4)
+    area = 2 * hd * hd * rng.choice([1.0, 0.25, 0.5])
+    coo = []
+    for d in range(3):
+        lo, hi = nd[d][0] + hd, nd[d][-1] - hd
+        c0 = lo + rng.randint(0, max(0, int((hi - lo) * 16))) / 16
+        coo.append(c0)
+    coo += [gen_angle(rng, False), gen_angle(rng, True)]
+    loop = np.round(np.asarray(E.TxMagneticDipole(tuple(coo), length=area).points, float), 9)
+    return coo, area, [[float(x) for x in p] for p in loop]
+
+
 def corr_gsf(ctx, n, dis, hist, samples, clamp):
     rng = ctx.rng
     cases = []
     for i in range(n):
-        g = gen_grid(rng, False)
-        t = rng.choice(['pair', 'pair', 'flat', 'wire', 'point'])
-        if t == 'point':
+        large = (i % 3 == 2)
+        g = gen_grid(rng, False, large)
+        t = rng.choice(['wire', 'wire', 'mag']) if large else \
+            rng.choice(['pair', 'pair', 'flat', 'wire', 'point', 'mag'])
+        if t == 'mag':
+            coo, area, loop = gen_mag(rng, g)
+            src = {'type': t, 'coo': coo, 'area': area, 'loop': loop}
+        elif t == 'point':
             src = {'type': t, 'coo': point(rng, g, [rng.choice(['generic', 'node', 'centre'])
                                                       for _ in range(3)])
                    + [gen_angle(rng, False), gen_angle(rng, True)]}
         else:
-            kind = 'wire' if t == 'wire' else rng.choice(['generic', 'nodes', 'axis', 'boundary'])
+            kind = (rng.choice(['wire', 'cable']) if t == 'wire'
+                    else rng.choice(['generic', 'nodes', 'axis', 'boundary']))
             src = {'type': t, 'pts': gen_points(rng, g, kind, allow_upper=False)}
         src['strength'] = gen_strength(rng)
         cases.append({'grid': g, 'src': src, 'freq': gen_freq(rng)})
@@ -573,7 +640,8 @@ def corr_gsf(ctx, n, dis, hist, samples, clamp):
             src, freq = c['src'], c['freq']
             mode = 'none' if freq is None else 'zero' if freq == 0 else 'laplace' if freq < 0 else 'freq'
             skind = type(src['strength']).__name__
-            hist[f"gsf/{src['type']}/{mode}/{skind}"] = hist.get(f"gsf/{src['type']}/{mode}/{skind}", 0) + 1
+            hk = f"gsf/{'large/' if c['grid'].get('large') else ''}{src['type']}/{mode}/{skind}"
+            hist[hk] = hist.get(hk, 0) + 1
             brief = {'kind': 'get_source_field', 'h': c['grid']['h'], 'origin': c['grid']['origin'],
                      'source': {kk: str(vv) if isinstance(vv, complex) else vv for kk, vv in src.items()},
                      'frequency': freq}
@@ -586,16 +654,20 @@ def corr_gsf(ctx, n, dis, hist, samples, clamp):
                 dis.append({'what': 'get_source_field error behaviour differs from the model',
                             'case': brief, 'impl': impl.get('msg', 'ok'), 'model': 'error' if merr else 'ok'})
                 continue
-            nontriv.add((src['type'], mode, skind))
+            nontriv.add((src['type'], bool(c['grid'].get('large')), mode, skind))
             if merr:
                 continue
             if impl['nwarn']:
                 dis.append({'what': "get_source_field raised the 'Normalizing Source' warning",
                             'case': brief})
                 continue
-            scale = max(max(float(np.max(np.abs(a))) if a.size else 0.0 for a in impl['f']), 1e-300)
+            mvs = [[complex(float(a), float(b_)) for a, b_ in vals[comp]] for comp in range(3)]
+            scale = max(max(float(np.max(np.abs(a))) if a.size else 0.0 for a in impl['f']),
+                        max([abs(x) for m_ in mvs for x in m_] + [0.0]), 1e-300)
+            if c['grid'].get('large'):
+                scale *= 1000.0         # coordinates ~1e6: entries carry ~1e-9 absolute rounding
             for comp in range(3):
-                mv = [complex(float(a), float(b_)) for a, b_ in vals[comp]]
+                mv = mvs[comp]
                 iv = impl['f'][comp].ravel()
                 bad = None
                 if len(iv) != len(mv):
@@ -885,13 +957,31 @@ def check_dipole_property(g, pts):
         return {'signature': 'dipole/wire inside the grid is rejected or crashes',
                 'observed': f"{type(e).__name__}: {e}"[:160]}
     fs = [np.array(vf.fx), np.array(vf.fy), np.array(vf.fz)]
-    scale = max(1.0, max(abs(x) for p in pts for x in p))
+    # tolerance: 1e-7 of the segment extents + rounding of coordinates of this magnitude
+    tol = 1e-7 * val_scale(pts)
     for c in range(3):
-        want = pts[-1][c] - pts[0][c]
+        want = float(Fr(pts[-1][c]) - Fr(pts[0][c]))
         got = float(fs[c].sum())
-        if not abs(got - want) <= 1e-7 * scale:
+        if not abs(got - want) <= tol:
             return {'signature': 'dipole vector component sum differs from last - first electrode',
                     'component': 'xyz'[c], 'observed': got, 'required': want}
+    if len(pts) > 2:
+        # every segment must inject its own moment: the wire's vector is the sum of the
+        # vectors of its two-electrode segments (closed loops have zero total moment, so the
+        # component sums alone cannot see a dropped segment there)
+        with warnings.catch_warnings():
+            warnings.simplefilter('ignore')
+            parts = [fields._dipole_vector(gr, np.array([a, b], float))
+                     for a, b in zip(pts[:-1], pts[1:])]
+        for c, nm in enumerate(('fx', 'fy', 'fz')):
+            tot = sum(np.array(getattr(q, nm)) for q in parts)
+            err = float(np.max(np.abs(tot - fs[c]))) if tot.size else 0.0
+            if not err <= tol:
+                k = int(np.argmax(np.abs(tot - fs[c])))
+                return {'signature': "wire vector is not the sum of its segments' vectors "
+                                     "(a segment's moment is missing)",
+                        'component': 'xyz'[c], 'flat_index': k,
+                        'observed': float(fs[c].ravel()[k]), 'required': float(tot.ravel()[k])}
     nodes = [[Fr(x) for x in nd] for nd in g['nodes']]
     for c in range(3):
         for idx in zip(*np.nonzero(np.abs(fs[c]) > 1e-12)):
@@ -987,17 +1077,32 @@ def search(ctx, broken):
     hits = []
     n = 300 if ctx.thorough else 150
     counts = {'dipole': 0, 'point': 0, 'scaling': 0, 'conv': 0}
+    skip_upper = upper_defect_reproduces()
+    counts.update({'large': 0, 'magnetic': 0})
     for i in range(n):
-        g = gen_grid(rng, True)
-        kind = rng.choice([k for k in DIP_KINDS if k not in ('outside', 'nolength')])
+        large = (i % 3 == 1)
+        g = gen_grid(rng, True, large)
+        kind = rng.choice([k for k in (LARGE_KINDS if large else DIP_KINDS)
+                           if k not in ('outside', 'nolength')])
         pts = gen_points(rng, g, kind)
-        if upper_plane(g, pts):
-            continue        # the listed defect; reported by known_checks
+        if skip_upper and upper_plane(g, pts):
+            continue        # the defect reported by known_checks
         h = check_dipole_property(g, pts)
         counts['dipole'] += 1
+        counts['large'] += int(large)
         if h:
             hits.append(dict(h, h=g['h'], origin=g['origin'], points=pts))
             break
+        if i % 5 == 2:
+            # magnetic dipole = closed square loop through the same wire code path
+            coo, area, loop = gen_mag(rng, g)
+            if not (skip_upper and upper_plane(g, loop)):
+                h = check_dipole_property(g, loop)
+                counts['magnetic'] += 1
+                if h:
+                    hits.append(dict(h, h=g['h'], origin=g['origin'], points=loop,
+                                     magnetic_dipole={'coordinates': coo, 'area': area}))
+                    break
         if i % 3 == 0:
             coo = point(rng, g, [rng.choice(['generic', 'node', 'centre', 'first', 'last'])
                                  for _ in range(3)]) + [gen_angle(rng, False), gen_angle(rng, True)]
